@@ -341,21 +341,21 @@ func loadKnown(path string) ([]KnownFinding, error) {
 
 // sessionTwo: clauses added in session 2 (DESIGN.md section 4 marks them "round-3 seed", "mutation sweep" or D31–D42).
 var sessionTwo = map[string]string{
-	"C01": " Added in session 2: the plan executes under a context detached from the caller of Start (R2).",
+	"C01": " Added in session 2: the plan executes under a context detached from the caller of Start (R2). Pending pre-checks are always run (assume present∧NotStarted and refute).",
 	"C02": " Added in session 2: no function but a constructor assigns a field of the sm.States / actions.Runner value all plans share (R5); the plugin gets the timeout context of run() (R6).",
-	"C03": " Added in session 2: finished sequences are never launched again, so a failure stored before a restart is counted once (R2); fixPlan classifies each block by its status after fixBlock (R4); a passing continuous-check result never waits for a reader (R5).",
-	"C04": " Added in session 2: examineChecks scans every group (assume-and-refute per iteration, R5); routing in the verdict machine follows the examined facts and only `end` stops without an error (R6); the result channels are made before any state uses them (R4); (R8) whoever assigns a terminal status stamps State.End or delegates to BlockEnd/End, which stamp on every exit.",
-	"C05": " Added in session 2: the result channel is made by run() for that invocation (R4); (R7) recovery never leaves an action with a finished last attempt Running.",
-	"C06": " Added in session 2: a present bypass group is evaluated unless already Failed (R1); examineBypasses is true exactly for present∧Completed (R3); a recovered scope whose PreChecks are Completed still gets the first ContChecks run, and a gate durably Failed at the crash fails the scope in fixBlock/fixPlan (R4).",
-	"C07": " Added in session 2: only failed results must be delivered (with a send that cannot be skipped), passing ones never wait for a reader, a failed run does not go round the loop again (R1); (R6) once fixPlan assigned Failed nothing later on the path gives the plan another status.",
+	"C03": " Added in session 2: finished sequences are never launched again, so a failure stored before a restart is counted once (R2); fixPlan classifies each block by its status after fixBlock (R4); a passing continuous-check result never waits for a reader (R5). fixSeq records a sequence with a failed action as Failed and Completed only with every action completed; execSeq answers for a Failed sequence with its failure (R4).",
+	"C04": " Added in session 2: examineChecks scans every group (assume-and-refute per iteration, R5); routing in the verdict machine follows the examined facts and only `end` stops without an error (R6); the result channels are made before any state uses them (R4); (R8) whoever assigns a terminal status stamps State.End or delegates to BlockEnd/End, which stamp on every exit. The cancel function of a block's continuous checks reaches Data.blocks[0] (R4).",
+	"C05": " Added in session 2: the result channel is made by run() for that invocation (R4); (R7) recovery never leaves an action with a finished last attempt Running. Runner.Start stops without an error only for an action established Completed or Failed (R5).",
+	"C06": " Added in session 2: a present bypass group is evaluated unless already Failed (R1); examineBypasses is true exactly for present∧Completed (R3); a recovered scope whose PreChecks are Completed still gets the first ContChecks run, and a gate durably Failed at the crash fails the scope in fixBlock/fixPlan (R4). Pending pre-checks are always run (R4).",
+	"C07": " Added in session 2: only failed results must be delivered (with a send that cannot be skipped), passing ones never wait for a reader, a failed run does not go round the loop again (R1); (R6) once fixPlan assigned Failed nothing later on the path gives the plan another status. runContChecks returns when cancelled (R1); post/deferred check states run a pending group and fixPlan declares a plan Completed only with its PostChecks and DeferredChecks done (R4).",
 	"C08": " Added in session 2 (R1): a plan state that marks the plan or head block Running writes it before returning, and Start / ExecuteBlock / execSeq mark their object Running before the work starts.",
-	"C09": " Added in session 2: skipBlock answers true exactly for a block whose own status is terminal (R1); fixPlan/fixBlock/fixSeq classify each child after repairing it (R2).",
-	"C10": " Added in session 2: no vault call from inside a loop consuming a vault stream (R1); End stores the plan after its children, failure verdicts of fix* are sticky, children are classified after repair, the cont-check channels are made on the Recovery path, BlockPostChecks/BlockDeferredChecks never pass over a present group that is already Failed (R3).",
-	"C11": " Added in session 2: the stale plan is written after everything it contains (R3).",
+	"C09": " Added in session 2: skipBlock answers true exactly for a block whose own status is terminal (R1); fixPlan/fixBlock/fixSeq classify each child after repairing it (R2). The launch loop passes over finished sequences without leaving the loop, execSeq returns the failure of a Failed sequence, Runner.Start silent stop only for finished actions (R1); fixSeq verdicts (R2).",
+	"C10": " Added in session 2: no vault call from inside a loop consuming a vault stream (R1); End stores the plan after its children, failure verdicts of fix* are sticky, children are classified after repair, the cont-check channels are made on the Recovery path, BlockPostChecks/BlockDeferredChecks never pass over a present group that is already Failed (R3). Every self-edge of ExecuteBlock shrinks the block queue; launch-loop, fixSeq, fixPlan-Completed and Runner.Start rules (R3).",
+	"C11": " Added in session 2: the stale plan is written after everything it contains (R3). lastUpdate reads the Start and End of every attempt (R2).",
 	"C12": " Added in session 2: the job that runs the plan is submitted under a context made in runPlan and a refused Start reaches no mutating vault method (R1); the walkers never hand a nil child on (R4); (R7) nil-then-dereference contradiction rule and index-past-end lint over every package the five API calls reach.",
 	"C13": " Added in session 2: a stored cosmos document is decoded into a value made for that call (R6); (R8) the create transaction watches the error Create returns.",
-	"C14": " Added in session 2: when the transaction watches a variable that is not the named result every return after the registration returns it (R1); no retry operation adds to, or hands on by address, a batch made outside it (R5).",
-	"C15": " Added in session 2 (R5): a cosmos retry operation uses the context its loop runs under; cosmosdb.New assigns a component's swarm before copying the component.",
+	"C14": " Added in session 2: when the transaction watches a variable that is not the named result every return after the registration returns it (R1); no retry operation adds to, or hands on by address, a batch made outside it (R5). The response of every ExecuteTransactionalBatch is examined (R5).",
+	"C15": " Added in session 2 (R5): a cosmos retry operation uses the context its loop runs under; cosmosdb.New assigns a component's swarm before copying the component. The error of Pool.Submit is tested in Search/List of both vaults (R3).",
 	"C16": " Added in session 2 (R1): request defaults precede Validate; an action arriving with a register is refused at once.",
 	"C17": " Added in session 2 (R1): an embedded struct is examined whatever the name of its type; a struct value is exempted from scrubbing only by the time.Time test, applied to the dispatched value.",
 	"C18": " Added in session 2: append counts as a copy only with a destination that cannot lend its array (R2); (R5) the time.Time exemption of the scrub pass tests the dispatched value.",
